@@ -211,6 +211,22 @@ SIGMA_MLI = [
     "> a",
     "- a",
 ]
+# multi-line links (destination / title / label on continuation lines) and multi-line raw HTML
+SIGMA_MLI2 = [
+    "",
+    "a",
+    "===",
+    "a [b](/u",
+    "  \"t",
+    "u\") c",
+    "a [b][c",
+    " d] e <b",
+    "a <b",
+    "    c='x'>d",
+    "  e <i>f</i>",
+    "[c d]: /u",
+    "`",
+]
 INL_CONTEXTS = ["{X}", "[a]: /u\n\n{X}", "# {X}", "- {X}", "> {X}", "- # {X}"]
 
 SIGMA_RULE = [
@@ -497,6 +513,15 @@ def focus_spaces(tier):
 SIGMA_LEVELS = ["", "~~~", "```", "    a", ">  a", "* a", "   * a", "#  a"]
 
 
+def levels_deep_spaces():
+    """two 4-line sub-alphabets of SIGMA_LEVELS explored to depth 6: a fix at one level that creates a
+    trigger at another level while a third level already fails needs that many lines"""
+    return [
+        ProductSpace("B(levelsA,6)", ["", "~~~", "    a", ">  a"], 6, minlen=5),
+        ProductSpace("B(levelsB,6)", ["", "* a", "   * a", "#  a"], 6, minlen=5),
+    ]
+
+
 def levels_space(tier):
     return ProductSpace(f"B(levels,{6 if tier == 'thorough' else 4})", SIGMA_LEVELS, 6 if tier == "thorough" else 4, minlen=3)
 
@@ -520,4 +545,5 @@ def parser_space(tier, commonmark_only=False):
         parts = [block_space("core", 3), ProductSpace("B(core19,4)", core19, 4, minlen=4), block_space(wide, 2), ProductSpace("B(mli,3)", SIGMA_MLI, 3)]
         parts += inline_wide_space(3, (0, 2, 3), commonmark_only)
     parts += focus_spaces(tier)
+    parts.append(ProductSpace(f"B(mli2,{5 if tier == 'thorough' else 4})", SIGMA_MLI2, 5 if tier == "thorough" else 4))
     return UnionSpace(f"parser-{tier}", parts)
